@@ -127,6 +127,25 @@ func constInt(c *types.Const) (int64, bool) {
 // isFieldNamed reports whether t is field<name>(...) possibly under phi alternatives (all alternatives).
 func isField(t *Term, name string) bool { return t.Op == "field" && t.Name == name }
 
+// fieldBase: t is field<name>(b) — possibly joined with constants / zero values
+// (generated nil-safe getters) — and returns b; nil otherwise.
+func fieldBase(t *Term, name string) *Term {
+	var base *Term
+	for _, a := range t.Alts() {
+		switch {
+		case a.Op == "const" || a.Op == "zero":
+		case isField(a, name):
+			if base != nil && base.Key() != a.Args[0].Key() {
+				return nil
+			}
+			base = a.Args[0]
+		default:
+			return nil
+		}
+	}
+	return base
+}
+
 // hasField reports whether some sub-term is field<name>.
 func hasField(t *Term, name string) bool {
 	return t.Any(func(x *Term) bool { return isField(x, name) })
